@@ -25,6 +25,7 @@ From EV Require Import Base.Arith Model.Aggregate.
 Open Scope Z_scope."""
 METH = {"SKIP": 0, "SKIP_WARN": 1, "MEAN": 2, "BAG_UNION": 3, "MEANSTD": 4}
 METH_NAME = {v: k for k, v in METH.items()}
+STALE = "trajectory-data-stale"
 ERR_TEXT = {1: "No results to aggregate", 2: "is not present in all results", 3: "same aggregation functions",
             4: "same atom order", 5: "same sequence duration", 6: "are not all the same"}
 
@@ -44,8 +45,9 @@ def _small_sequence(n=2, dur=40):
     return seq
 
 
-def expansion_impl(reps_list, n=2):
-    """real get_sequences on a real PulserData whose `hamiltonian.noisy_samples` is scripted"""
+def expansion_impl(reps_list, n=2, bads=None):
+    """real get_sequences on a real PulserData whose `hamiltonian.noisy_samples` is scripted: trajectory i has the
+    drives i / 1000+i / 2000+i, the interaction matrix with entries 100+i and the bad-atom pattern bads[i]"""
     import torch
     import emu_base.pulser_adapter as PA
     from types import SimpleNamespace
@@ -64,9 +66,16 @@ def expansion_impl(reps_list, n=2):
         return mk(0), mk(1000), mk(2000)
 
     ham = pd.hamiltonian
+    bads = bads or [[False] * n for _ in reps_list]
+
+    def matrix_of(i):
+        m = torch.full((1, n, n), float(100 + i), dtype=torch.float64)
+        m[0].fill_diagonal_(0.0)
+        return lambda: m
+
     fake_samples = [SimpleNamespace(
-        trajectory=SimpleNamespace(bad_atoms={q: False for q in pd.qubit_ids},
-                                   interaction_matrix=SimpleNamespace(as_tensor=lambda: torch.zeros(1, n, n))),
+        trajectory=SimpleNamespace(bad_atoms=dict(zip(pd.qubit_ids, bads[i])),
+                                   interaction_matrix=SimpleNamespace(as_tensor=matrix_of(i))),
         samples=SimpleNamespace(tid=i), reps=r) for i, r in enumerate(reps_list)]
     pd.hamiltonian = SimpleNamespace(noisy_samples=fake_samples)
     saved = PA._extract_omega_delta_phi
@@ -78,7 +87,14 @@ def expansion_impl(reps_list, n=2):
         pd.hamiltonian = ham
     ids = [int(round(float(sd.omega[0, 0].real))) for sd in out]
     ptrs = [sd.omega.data_ptr() for sd in out]
-    return ids, ptrs, calls
+    # the trajectory each OTHER component of the yielded SequenceData comes from
+    parts = {"delta": [int(round(float(sd.delta[0, 0].real))) - 1000 for sd in out],
+             "phi": [int(round(float(sd.phi[0, 0].real))) - 2000 for sd in out],
+             "interaction_matrix(0)": [int(round(float(sd.interaction_matrix(0.0)[0, 1]))) - 100 for sd in out],
+             "interaction_matrix(T)": [int(round(float(sd.interaction_matrix(1e9)[1, 0]))) - 100 for sd in out]}
+    bad_ok = [[bool(b) for b in sd.bad_atoms] == [bool(b) for b in bads[i]] if 0 <= i < len(bads) else False
+              for sd, i in zip(out, ids)]
+    return ids, ptrs, calls, parts, bad_ok
 
 
 def expansion_stage(ctx, n_cases):
@@ -86,23 +102,37 @@ def expansion_stage(ctx, n_cases):
     for _ in range(n_cases):
         k = ctx.rng.randint(0, 8)
         cases.append([ctx.rng.choice([0, 1, 1, 2, 3, 7, ctx.rng.randint(1, 50)]) for _ in range(k)])
+    # bad-atom patterns: mostly all-False (shot-to-shot noise without SPAM: the trajectories differ in everything else),
+    # sometimes SPAM patterns, equal or different between trajectories
+    pats = [[False, False], [False, False], [False, False], [True, False], [False, True]]
+    bads_of = [[ctx.rng.choice(pats) for _ in c] for c in cases]
     ok, detail = True, ""
     try:
         ev = common.CoqEval("C34exp", HEADER)
         for c in cases:
             ev.add("expand [" + "; ".join(f"({i}, {r}%nat)" for i, r in enumerate(c)) + "]")
         outs = ev.run()
-        for c, o in zip(cases, outs):
-            ids, ptrs, calls = expansion_impl(c)
+        for c, bads, o in zip(cases, bads_of, outs):
+            ids, ptrs, calls, parts, bad_ok = expansion_impl(c, bads=bads)
             model = [int(x) for x in parse(o)] if c and sum(c) else []
             shared_ok = all((ptrs[i] == ptrs[j]) == (ids[i] == ids[j]) for i in range(len(ids)) for j in range(i))
             good = ids == model and len(ids) == sum(c) and shared_ok and calls == list(range(len(c)))
-            ctx.count_case({"kind": "expansion", "reps": c, "yielded": len(ids)}, nontrivial=len(c) >= 2)
+            ctx.count_case({"kind": "expansion", "reps": c, "yielded": len(ids), "bad_atoms": bads}, nontrivial=len(c) >= 2)
+            # the yielded item IS trajectory `expand`[k]: every component (not only omega) comes from that trajectory
+            stale = [name for name, v in parts.items() if v != model] + ([] if all(bad_ok) else ["bad_atoms"])
+            if stale and ids == model:
+                ctx.violation(f"get_sequences: with trajectories of reps {c} and bad atoms {bads} the yielded SequenceData take "
+                              f"{stale[0]} from trajectories {parts.get(stale[0], bad_ok)} but omega from {ids}: an item is not "
+                              f"the function of its own noise trajectory",
+                              {"case": {"kind": "expansion", "reps": c, "bads": bads}, "finding_key": STALE})
+                good = False
             if not good and ok:
-                ok, detail = False, f"reps={c} impl={ids} model={model} extract_calls={calls} sharing_ok={shared_ok}"
+                ok, detail = False, (f"reps={c} impl={ids} model={model} extract_calls={calls} sharing_ok={shared_ok} "
+                                     f"other components from {parts} bad_atoms_ok={bad_ok}")
     except (common.CoqEvalError, ValueError) as ex:
         ok, detail = False, str(ex)
-    ctx.obligation("correspondence:Model.Aggregate.expand==PulserData.get_sequences (order, count, tensor sharing)",
+    ctx.obligation("correspondence:Model.Aggregate.expand==PulserData.get_sequences (order, count, tensor sharing; omega, "
+                   "delta, phi, interaction matrix and bad atoms of every item from the same trajectory)",
                    ok, detail, kind="correspondence")
 
 
@@ -398,7 +428,7 @@ def aggregate_stage(ctx, n_cases):
 # ---- (c) real kernels, real noise: per-run results vs aggregate; tensor sharing ------------------------
 def gen_e2e_case(rng):
     noise = rng.choice(["spam", "spam", "amplitude", "detuning", "register", "spam+amplitude", "none", "dephasing",
-                        "relaxation", "depolarizing", "spam+dephasing", "none", "dephasing"])
+                        "relaxation", "depolarizing", "spam+dephasing", "none", "dephasing", "register+spam+amplitude"])
     lind = any(k in noise for k in ("dephasing", "relaxation", "depolarizing"))
     return {"backend": rng.choice(["sv", "mps"]), "n": rng.choice([2, 3]), "noise": noise,
             "ntraj": rng.choice([1, 2, 3, 5, 8, 13, 20, 50]) if not (lind or noise == "none") else rng.choice([2, 5, 8, 12]),
@@ -415,7 +445,7 @@ def _noise_model(case):
         kw.update(amp_sigma=0.2)
     if k == "detuning":
         kw.update(detuning_sigma=0.5)
-    if k == "register":
+    if "register" in k:
         kw.update(temperature=50.0, trap_waist=1.0, trap_depth=150.0)   # noise types: doppler + register
     if "dephasing" in k:
         kw.update(dephasing_rate=40.0)     # strong: P(no jump in a 60 ns emu-mps run) <= exp(-2.4)
@@ -434,6 +464,7 @@ def run_e2e(case):
     import torch
     import emu_mps
     import emu_sv
+    import emu_base.pulser_adapter as PA
     from emu_base.pulser_adapter import PulserData
     from pulser.backend import BitStrings, Energy, Occupation
 
@@ -453,18 +484,31 @@ def run_e2e(case):
     per_run, info = [], []
     orig = cls.__dict__["_run_from_sequence_data"].__func__
 
+    captured = []          # the PulserData built by run(): its hamiltonian holds the sampled noise trajectories
+    orig_gs = PA.PulserData.get_sequences
+
+    def recording_get_sequences(self):
+        captured.append(self)
+        return orig_gs(self)
+
     def wrapped(sequence_data, config):
         before = sequence_data.omega.clone()
+        t_end = float(sequence_data.target_times[-1])
+        given = {"delta": sequence_data.delta.clone(), "phi": sequence_data.phi.clone(),
+                 "imat0": sequence_data.interaction_matrix(0.0).clone(),
+                 "imatT": sequence_data.interaction_matrix(t_end).clone()}
         res = orig(sequence_data, config)
         per_run.append(res)
         # keep the tensor itself alive: a freed storage may be handed out again to a later trajectory, which
         # would make equal data_ptr values meaningless (false alarm seen in the thorough tier)
         info.append({"bad": tuple(sequence_data.bad_atoms), "ptr": sequence_data.omega.data_ptr(),
                      "alive": sequence_data.omega,
-                     "before": before, "after": sequence_data.omega.clone(), "spe": sequence_data.state_prep_error})
+                     "before": before, "after": sequence_data.omega.clone(), "spe": sequence_data.state_prep_error,
+                     "given": given})
         return res
 
     cls._run_from_sequence_data = staticmethod(wrapped)
+    PA.PulserData.get_sequences = recording_get_sequences
     import random as _random
     np.random.seed(case["seed"])
     torch.manual_seed(case["seed"])
@@ -475,12 +519,64 @@ def run_e2e(case):
             out = cls(seq, config=cfg).run()
     finally:
         cls._run_from_sequence_data = staticmethod(orig)
-    return out, per_run, info, obs, clean_omega
+        PA.PulserData.get_sequences = orig_gs
+    return out, per_run, info, obs, clean_omega, (captured[-1] if captured else None)
+
+
+def own_trajectory_problems(case, pd, info):
+    """every SequenceData a run received must be the function of ITS OWN noise trajectory (the k-th of the reps
+    expansion of the trajectories pulser sampled for this run()): interaction matrix = that trajectory's matrix with
+    the cutoff applied (these sequences have no SLM mask and no user matrix), bad atoms, and the drive tables of that
+    trajectory's noisy samples on its well-prepared atoms (emu-sv zeroes the others in place).  Bit for bit: same code."""
+    import torch
+    from emu_base.pulser_adapter import _extract_omega_delta_phi
+
+    if pd is None:
+        return [("harness", "run() did not call PulserData.get_sequences")]
+    with warnings.catch_warnings():
+        warnings.simplefilter("ignore")
+        own = [smp for smp in pd.hamiltonian.noisy_samples for _ in range(smp.reps)]
+    if len(own) != len(info):
+        return []      # reported as run-count
+    out = []
+    for k, (smp, a) in enumerate(zip(own, info)):
+        tr = smp.trajectory
+        bad = tuple(bool(b) for b in tr.bad_atoms.values())
+        if tuple(bool(b) for b in a["bad"]) != bad:
+            out.append((STALE, f"run {k} of {len(info)} got bad_atoms {a['bad']}, its noise trajectory has {bad}"))
+            break
+        m = tr.interaction_matrix.as_tensor()
+        m = (m[0] if m.dim() == 3 else m).clone()
+        m[m.abs() < pd.interaction_cutoff] = 0.0
+        for name in ("imat0", "imatT"):
+            got = a["given"][name]
+            if got.shape != m.shape or not torch.equal(got, m):
+                err = float((got - m).abs().max()) if got.shape == m.shape else float("inf")
+                whose = [j for j, o in enumerate(own) if j != k and torch.equal(
+                    got, (lambda x: torch.where(x.abs() < pd.interaction_cutoff, torch.zeros_like(x), x))(
+                        o.trajectory.interaction_matrix.as_tensor().reshape(-1, *m.shape)[0]))]
+                out.append((STALE, f"run {k} of {len(info)} (noise model: {case['noise']}) was simulated with an interaction "
+                                   f"matrix that is not the one of its own noise trajectory (max difference {err:.3g}"
+                                   + (f"; it is the matrix of trajectory {whose[0]}" if whose else "") + "): the aggregate "
+                                   f"does not combine the {len(info)} sampled trajectories"))
+                break
+        else:
+            good = [j for j, b in enumerate(bad) if not b]
+            want = _extract_omega_delta_phi(smp.samples, pd.qubit_ids, pd.target_times, all_register_atoms=True)
+            for name, got, w in zip(("omega", "delta", "phi"), (a["before"], a["given"]["delta"], a["given"]["phi"]), want):
+                if got.shape != w.shape or not torch.equal(got[:, good], w[:, good]):
+                    out.append((STALE, f"run {k} of {len(info)} (noise model: {case['noise']}) was simulated with a {name} "
+                                       f"table that is not the one of its own noise trajectory"))
+                    break
+            else:
+                continue
+        break
+    return out
 
 
 def check_e2e(ctx, case):
     try:
-        out, per_run, info, obs, clean_omega = run_e2e(case)
+        out, per_run, info, obs, clean_omega, pd = run_e2e(case)
     except Exception as ex:  # noqa: BLE001
         if case["backend"] == "mps" and "spam" in case["noise"]:
             # emu-mps refuses trajectories with fewer than 2 well-prepared atoms (finding F-13, reported under its own property)
@@ -506,6 +602,8 @@ def check_e2e(ctx, case):
                              f"all {len(per_run)} emu-mps runs with Lindblad noise returned identical occupations"))
     if len(per_run) == 1 and out is not per_run[0]:
         problems.append(("single-run", "single run not returned unchanged"))
+    # "combine exactly n_trajectories simulations": run k is the simulation of noise trajectory k, not of another one
+    problems += own_trajectory_problems(case, pd, info)
     if len(per_run) >= 2:
         for tag in ("occupation", "energy"):
             for t in out.get_result_times(tag):
@@ -559,6 +657,10 @@ def run(ctx):
     aggregate_stage(ctx, ctx.n(24, 400))
     for c in corpus_cases():
         check_e2e(ctx, c)
+    # always: register noise (every trajectory has its own atom positions, identical bad atoms), one backend per run
+    fixed = gen_e2e_case(ctx.rng)
+    fixed.update(noise="register", ntraj=3, n=3)
+    check_e2e(ctx, fixed)
     for _ in range(ctx.n(10, 150)):
         case = gen_e2e_case(ctx.rng)
         if not ctx.thorough():
@@ -572,7 +674,11 @@ def run(ctx):
                 "malformed: missing time, missing observable, atom order, duration): pulser's Results.aggregate vs "
                 "vm_compute of the model on exact rationals; (c) real kernels, 2-3 atoms, SPAM/amplitude/detuning/"
                 "register/dephasing/relaxation/depolarizing/mixed/no noise, n_trajectories 1..50: recorded per-run Results vs the returned aggregate, "
-                "number of runs, bitstring totals, state of the shared drive tensors before/after every run. "
+                "number of runs, bitstring totals, state of the shared drive tensors before/after every run; the SequenceData "
+                "every run received (interaction matrix at t = 0 and T, bad atoms, omega/delta/phi on the well-prepared atoms) "
+                "vs the k-th noise trajectory pulser sampled for that run() (key trajectory-data-stale); in (a) the scripted "
+                "trajectories carry distinct drives, interaction matrices and equal/different bad-atom patterns and every "
+                "component of each yielded item must come from the trajectory `expand` names. "
                 "non-trivial = >= 2 runs (or >= 2 trajectories for the expansion).")
     ctx.trusted_base += ["hand-written Model/Aggregate.v of pulser 1.9.1 Results.aggregate, tied by correspondence (b)",
                          "the stub replacing _run_from_sequence_data in (b) (fabricates Results through the real "
@@ -589,6 +695,13 @@ def replay(ctx, path):
     rp = json.load(open(path))
     if "case" in rp and "noise" in rp["case"]:
         check_e2e(ctx, rp["case"])
+    elif rp.get("case", {}).get("kind") == "expansion":
+        c = rp["case"]
+        ids, ptrs, calls, parts, bad_ok = expansion_impl(c["reps"], bads=c["bads"])
+        print("omega from trajectories", ids, "other components from", parts, "bad atoms ok", bad_ok)
+        if any(v != ids for v in parts.values()) or not all(bad_ok):
+            ctx.violation("replayed: a yielded SequenceData mixes components of different noise trajectories",
+                          {"case": c, "finding_key": STALE})
     elif "case" in rp:
         out, per_run, datas, observables, err = run_agg_impl(rp["case"])
         print("runs:", len(per_run), "error:", err)
@@ -606,7 +719,12 @@ META = {
              "n * mean = sum, componentwise, over Q), every BAG_UNION value is the multiset union (counts add, total = "
              "n_runs * shots); zeroing shared drive rows is idempotent across repetitions, while different masks "
              "would accumulate (hence fresh tensors per trajectory, which the tie checks). Validated, not proved: that "
-             "Pulser's reps add up to n_trajectories; floating-point means within 2 ulp of the exact mean."),
+             "Pulser's reps add up to n_trajectories; floating-point means within 2 ulp of the exact mean; that the "
+             "item `expand` yields for trajectory j IS the whole of trajectory j in the real code: every component of every "
+             "yielded SequenceData (omega, delta, phi, interaction matrix, bad atoms) comes from its own trajectory, on scripted "
+             "trajectories and, end to end, for every noise type pulser samples per trajectory incl. register noise: the k-th "
+             "simulation of run() receives the interaction matrix / bad atoms / drives of the k-th sampled NoiseTrajectory "
+             "(oracle key trajectory-data-stale)."),
     "note": ("Trusted: Coq kernel+VM; the hand model of pulser 1.9.1 Results.aggregate (validated by the correspondence "
              "incl. its error paths); stubs. MEANSTD/custom aggregators outside the model."),
 }
